@@ -177,3 +177,130 @@ pub fn special_trees() -> Vec<Tree> {
     }
     out
 }
+
+/// the representable number `k` steps above (`k > 0`) or below (`k < 0`) a finite `x`
+pub fn ulp_step(x: f64, k: i64) -> f64 {
+    // map to a monotone integer line (negative floats mirrored), step, map back
+    let b = x.to_bits() as i64;
+    let line = if b < 0 { i64::MIN.wrapping_sub(b) } else { b };
+    let l2 = line.saturating_add(k);
+    let b2 = if l2 < 0 { i64::MIN.wrapping_sub(l2) } else { l2 };
+    let y = f64::from_bits(b2 as u64);
+    if y.is_nan() { x } else { y }
+}
+
+/// lengths around the powers of two that buffered / blocked / chunked ingestion would use
+pub const BLOCK_LENS: &[usize] = &[15, 16, 17, 31, 32, 33, 63, 64, 65, 127, 128, 129, 255, 256, 257, 511, 512, 513,
+    1023, 1024, 1025, 2047, 2048, 2049, 3072, 4095, 4096, 4097, 8192, 16384, 65535, 65536, 65537];
+
+/// lopsided merges: a long chunk (a run sitting at one extreme of the data, or random data) merged with a very
+/// short one, in both orders; sizes straddle 2^12 and 2^16
+pub fn lopsided_trees(rng: &mut Rng, quick: bool) -> Vec<Tree> {
+    let mut v = Vec::new();
+    let sizes: &[usize] = if quick { &[4095, 4097, 9000, 70_000] } else { &[1000, 4095, 4096, 4097, 5000, 9000, 65_537, 70_000, 300_000] };
+    for &big in sizes {
+        for kind in 0..3 {
+            let long: Vec<f64> = match kind {
+                0 => vec![5.0; big],
+                1 => (0..big).map(|_| 3.0 + rng.unit()).collect(),
+                _ => (0..big).map(|i| if i % 2 == 0 { -2.0 } else { -1.0 }).collect(),
+            };
+            for small in [vec![7.0], vec![-9.0, -8.5], vec![4.5, 6.0, 6.5]] {
+                v.push(Tree::Node(Box::new(Tree::Leaf(long.clone())), Box::new(Tree::Leaf(small.clone()))));
+                v.push(Tree::Node(Box::new(Tree::Leaf(small.clone())), Box::new(Tree::Leaf(long.clone()))));
+            }
+        }
+    }
+    v
+}
+
+fn rel_close(a: f64, b: f64, tol: f64) -> bool { (a - b).abs() <= tol * (1.0 + a.abs().max(b.abs())) }
+
+/// Counts far beyond anything a loop of `add` reaches: the estimator is merged with a clone of itself until its
+/// count passes 2^55. Every doubling, every accessor of the doubled state, one further `add` and a merge with a short
+/// chunk (both ways round) are correspondence lines; in the harness the statistics of the doubled state are
+/// compared with the textbook values (a sample repeated R times has the same mean, population variance, skewness
+/// and kurtosis; the bias-corrected ones follow from those with N = R n).
+pub fn huge_counts<E: Est>(out: &mut Out, data: &[f64], extra: &[f64]) {
+    if !out.next_case() { return; }
+    let mut e = E::new(); for x in data { e.add(*x) }
+    let mut small = E::new(); for x in extra { small.add(*x) }
+    let base = e.accessors();
+    let get = |accs: &[Acc], stat: &str| accs.iter().find(|a| a.stat == stat).map(|a| a.val.f());
+    let n0 = data.len() as f64;
+    let (mean0, popvar0) = (get(&base, "mean"), get(&base, "popvar").or(get(&base, "cm2")));
+    let (skew0, kurt0) = (get(&base, "skew").or(get(&base, "sm3")), get(&base, "kurt").or(get(&base, "sm4").map(|x| x - 3.0)));
+    // a second estimator over `extra`, doubled in lockstep: merging the two is a merge of two huge chunks with
+    // different means, whose population statistics are those of data ++ extra
+    let mut e2 = small.clone();
+    let mut union = E::new(); for x in data.iter().chain(extra.iter()) { union.add(*x) }
+    let ubase = union.accessors();
+    let mut reps = 1f64;
+    for round in 0..56 {
+        let c = e.clone();
+        let pa = words(&e);
+        e.merge(&c);
+        reps *= 2.0;
+        out.t(E::NAME, "merge", &pa, &pa, &words(&e));
+        { let c2 = e2.clone(); e2.merge(&c2); }
+        {
+            let mut u = e.clone(); let pu = words(&u); u.merge(&e2); out.t(E::NAME, "merge", &pu, &words(&e2), &words(&u));
+            let ua = u.accessors();
+            for stat in ["mean", "popvar", "cm2", "skew", "kurt", "sm3", "sm4", "cm3", "cm4"] {
+                if let (Some(g), Some(w)) = (get(&ua, stat), get(&ubase, stat)) {
+                    if w.is_finite() { out.x(rel_close(g, w, 1e-9), || format!("{}: merge of {:?} x {} with {:?} x {}: {} = {:?}, textbook value {:?}", E::NAME, data, reps, extra, reps, stat, g, w)); }
+                }
+            }
+        }
+        let accs = observe(out, &e);
+        let nn = n0 * reps;
+        let tol = 1e-9; // doubling merges of equal halves are exact up to a few ulps per level
+        let chk = |out: &mut Out, stat: &str, want: Option<f64>| {
+            if let (Some(g), Some(w)) = (get(&accs, stat), want) {
+                if w.is_finite() { out.x(rel_close(g, w, tol), || format!("{}: after {} self-merges of {:?} (count {}), {} = {:?}, textbook value {:?}", E::NAME, round + 1, data, nn, stat, g, w)); }
+            }
+        };
+        chk(out, "mean", mean0);
+        chk(out, "popvar", popvar0);
+        chk(out, "cm2", popvar0);
+        chk(out, "skew", skew0);
+        chk(out, "kurt", kurt0);
+        chk(out, "sm3", skew0);
+        chk(out, "sm4", kurt0.map(|k| k + 3.0));
+        if let Some(v) = popvar0 {
+            chk(out, "samplevar", Some(v * nn / (nn - 1.0)));
+            chk(out, "varmean", Some(v / (nn - 1.0)));
+            chk(out, "error", Some((v / (nn - 1.0)).sqrt()));
+        }
+        if let Some(s) = skew0 { chk(out, "sskew", Some(s * (nn * (nn - 1.0)).sqrt() / (nn - 2.0))); }
+        if let Some(k) = kurt0 { chk(out, "sexkurt", Some((nn - 1.0) / ((nn - 2.0) * (nn - 3.0)) * ((nn + 1.0) * k + 6.0))); }
+        if let Some(l) = e.len() { out.x(l as f64 == nn, || format!("{}: len() = {} after {} self-merges of {} observations", E::NAME, l, round + 1, data.len())); }
+        // one more observation, and a short chunk merged in from either side
+        let mut f = e.clone(); let pre = words(&f); f.add(extra[0]); out.t(E::NAME, "add", &pre, &fw(extra[0]), &words(&f));
+        if let (Some(m0), Some(g)) = (mean0, get(&f.accessors(), "mean")) {
+            if round >= 20 { out.x(rel_close(g, m0, 1e-5), || format!("{}: one observation {:?} added to {} observations with mean {:?} moved the mean to {:?}", E::NAME, extra[0], nn, m0, g)); }
+        }
+        if let (Some(v0), Some(g)) = (popvar0, get(&f.accessors(), "popvar")) {
+            if round >= 20 { out.x(rel_close(g, v0, 1e-4), || format!("{}: one observation {:?} added to {} observations with variance {:?} moved the variance to {:?}", E::NAME, extra[0], nn, v0, g)); }
+        }
+        let mut g = e.clone(); let pg = words(&g); g.merge(&small); out.t(E::NAME, "merge", &pg, &words(&small), &words(&g));
+        let mut h = small.clone(); let ph = words(&h); h.merge(&e); out.t(E::NAME, "merge", &ph, &words(&e), &words(&h));
+        if round >= 20 {
+            for (nm, s) in [("merge(short chunk)", &g), ("short chunk.merge", &h)] {
+                let a = s.accessors();
+                if let (Some(m0), Some(x)) = (mean0, get(&a, "mean")) { out.x(rel_close(x, m0, 1e-5), || format!("{}: {} at count {}: mean {:?}, was {:?}", E::NAME, nm, nn, x, m0)); }
+                if let (Some(v0), Some(x)) = (popvar0, get(&a, "popvar")) { out.x(rel_close(x, v0, 1e-4), || format!("{}: {} at count {}: variance {:?}, was {:?}", E::NAME, nm, nn, x, v0)); }
+                if let (Some(k0), Some(x)) = (kurt0, get(&a, "kurt")) { out.x(rel_close(x, k0, 1e-3), || format!("{}: {} at count {}: kurtosis {:?}, was {:?}", E::NAME, nm, nn, x, k0)); }
+                if let (Some(k0), Some(x)) = (skew0, get(&a, "skew")) { out.x(rel_close(x, k0, 1e-3), || format!("{}: {} at count {}: skewness {:?}, was {:?}", E::NAME, nm, nn, x, k0)); }
+            }
+        }
+    }
+    out.note(&format!("{}:huge-counts", E::NAME));
+}
+
+pub const HUGE_BASES: &[(&[f64], &[f64])] = &[
+    (&[1.0, 2.0, 4.0, 8.0], &[3.0, 5.0]),
+    (&[0.0, 0.0, 0.0, 1.0], &[0.25]),
+    (&[-3.0, 1.5, 2.0, 7.0, 11.0], &[2.0, 4.0, 6.0]),
+    (&[2.5], &[2.5]),
+];
